@@ -48,6 +48,8 @@ func main() {
 		cmdExecSpec(os.Args[2:])
 	case "selftest":
 		cmdSelftest(os.Args[2:])
+	case "pristine":
+		cmdPristine(os.Args[2:])
 	default:
 		fmt.Fprintln(os.Stderr, "unknown command", os.Args[1])
 		os.Exit(2)
@@ -102,25 +104,33 @@ func cmdWorker(args []string) {
 // violation class it reports ("" if none). Needed for race reports (the race runtime
 // de-duplicates identical reports within a process) and for deadlocks (leaked goroutines).
 func subprocessClass(spec *RunSpec) string {
+	c, _ := subprocessResult(spec)
+	return c
+}
+
+func subprocessResult(spec *RunSpec) (class, detail string) {
 	dir, err := os.MkdirTemp("", "goldsim-cand")
 	if err != nil {
-		return ""
+		return "", ""
 	}
 	defer os.RemoveAll(dir)
 	s := *spec
 	p, err := writeSpec(&s, dir, &Violation{Class: "candidate", Client: -1, Op: -1})
 	if err != nil {
-		return ""
+		return "", ""
 	}
 	cmd := exec.Command(os.Args[0], "execspec", p)
 	cmd.Env = append(os.Environ(), "GORACE=log_path="+filepath.Join(dir, "race")+" halt_on_error=0 atexit_sleep_ms=0")
 	out, _ := cmd.Output()
 	for _, l := range strings.Split(string(out), "\n") {
 		if strings.HasPrefix(l, "CLASS ") {
-			return strings.TrimSpace(strings.TrimPrefix(l, "CLASS "))
+			class = strings.TrimSpace(strings.TrimPrefix(l, "CLASS "))
+		}
+		if strings.HasPrefix(l, "DETAIL ") {
+			detail = strings.TrimPrefix(l, "DETAIL ")
 		}
 	}
-	return ""
+	return class, detail
 }
 
 func cmdExecSpec(args []string) {
